@@ -16,8 +16,13 @@ use std::sync::atomic::{AtomicU64, Ordering};
 use std::sync::{Arc, Mutex};
 use std::task::{Context, Poll, Waker};
 
+use bytes::BytesMut;
 use domain::base::iana::{Class, Rcode};
 use domain::base::message_builder::AdditionalBuilder;
+use domain::base::wire::Composer;
+use octseq::builder::ShortBuf;
+use std::marker::PhantomData;
+use std::net::IpAddr;
 use domain::base::name::Name;
 use domain::base::record::Ttl;
 use domain::base::{Message, MessageBuilder, Rtype, StreamTarget};
@@ -375,8 +380,33 @@ impl AsyncDgramSock for MockDgram {
 
 //------------ scripted service ----------------------------------------------
 
+/// How the scripted service assembles one answer (Server.tla part 1c): the
+/// abstract response (total length, OPT length, layout of the additional
+/// section) and the *route* by which the builder is made and the *recipe*,
+/// i.e. what the last builder operations are (a response whose final
+/// operation removed octets must leave the stack as well-framed as one that
+/// was only appended to).
+#[derive(Clone, Debug, Default)]
+pub struct AnsSpec {
+    pub len: usize,
+    pub optlen: usize,
+    /// plain | rewind | filllimit | fill64k | optfail
+    pub recipe: String,
+    /// mk | new | from | newtgt
+    pub route: String,
+    /// none | before | after | both: non-OPT additional records around the OPT
+    pub alay: String,
+}
+
 #[derive(Clone, Debug)]
 pub enum Item {
+    /// like `Resp`, with recipe / route / layout
+    RespX {
+        spec: AnsSpec,
+        fb: Option<ServiceFeedback>,
+    },
+    /// Err(ServiceError) of the given kind: formerr | notimp | refused
+    FailWith(&'static str),
     /// a response of `len` octets in total of which `optlen` are an OPT
     /// record (0 = none); `len == 0` means "smallest answer with marker k"
     Resp {
@@ -404,15 +434,41 @@ pub struct SvcState {
     pub arrived: Vec<(u16, u16, Option<u16>)>,
     /// requests without script are echoed (one minimal answer)
     pub echo: bool,
+    /// echo mode: how the answer is assembled depends on the request id
+    /// (OPT attached or not, recipe), so that every way a response can leave
+    /// the stack occurs under hostile input as well
+    pub echo_varied: bool,
+    /// per arrived request: did `RequestMessage::try_from(request)` (what a
+    /// forwarding service does first) succeed
+    pub fwd: Vec<bool>,
+    /// per arrived request: TransportSpecificContext::is_non_udp()
+    pub non_udp: Vec<bool>,
 }
 
-#[derive(Clone, Default)]
-pub struct ScriptSvc(pub Arc<Mutex<SvcState>>);
+/// The scripted service; `T` is the octets type its responses are built on.
+pub struct ScriptSvc<T = Vec<u8>>(pub Arc<Mutex<SvcState>>, PhantomData<fn() -> T>);
 
-impl ScriptSvc {
+impl<T> Clone for ScriptSvc<T> {
+    fn clone(&self) -> Self {
+        ScriptSvc(self.0.clone(), PhantomData)
+    }
+}
+
+impl<T> Default for ScriptSvc<T> {
+    fn default() -> Self {
+        ScriptSvc(Default::default(), PhantomData)
+    }
+}
+
+impl<T> ScriptSvc<T> {
     pub fn echo() -> Self {
         let s = ScriptSvc::default();
         s.0.lock().unwrap().echo = true;
+        s
+    }
+    pub fn echo_varied() -> Self {
+        let s = Self::echo();
+        s.0.lock().unwrap().echo_varied = true;
         s
     }
     pub fn script(&self, id: u16, items: Vec<Item>, permits: usize) {
@@ -436,11 +492,41 @@ impl ScriptSvc {
     }
 }
 
-pub struct ScriptStream {
-    svc: ScriptSvc,
+pub struct ScriptStream<T = Vec<u8>> {
+    svc: ScriptSvc<T>,
     id: u16,
     msg: Arc<Message<Vec<u8>>>,
     echoed: bool,
+}
+
+/// The octets types responses are built on and the public ways to make a
+/// stream-target message builder over them.
+pub trait MkTgt: Composer + Default + Send + Sync + 'static {
+    fn builder(route: &str) -> MessageBuilder<StreamTarget<Self>>;
+}
+
+impl MkTgt for Vec<u8> {
+    fn builder(route: &str) -> MessageBuilder<StreamTarget<Self>> {
+        match route {
+            "new" => MessageBuilder::new_stream_vec(),
+            "from" => MessageBuilder::from_target(StreamTarget::new(Vec::new()).unwrap()).unwrap(),
+            "newtgt" => MessageBuilder::from_target(StreamTarget::new_vec()).unwrap(),
+            _ => mk_builder_for_target::<Vec<u8>>(),
+        }
+    }
+}
+
+impl MkTgt for BytesMut {
+    fn builder(route: &str) -> MessageBuilder<StreamTarget<Self>> {
+        match route {
+            "new" => MessageBuilder::new_stream_bytes(),
+            "from" => {
+                MessageBuilder::from_target(StreamTarget::new(BytesMut::new()).unwrap()).unwrap()
+            }
+            "newtgt" => MessageBuilder::from_target(StreamTarget::new_bytes()).unwrap(),
+            _ => mk_builder_for_target::<BytesMut>(),
+        }
+    }
 }
 
 /// Build an answer of exactly `len` octets (when feasible) for `msg`:
@@ -454,22 +540,46 @@ pub fn build_answer(
     optlen: usize,
     wrong_id: bool,
 ) -> Result<AdditionalBuilder<StreamTarget<Vec<u8>>>, ServiceError> {
-    let builder = mk_builder_for_target::<Vec<u8>>();
+    let spec = AnsSpec { len, optlen, ..Default::default() };
+    build_answer_x::<Vec<u8>>(msg, k, &spec, wrong_id)
+}
+
+fn a_rec(a: u8, b: u8, c: u8, d: u8) -> (Name<&'static [u8]>, Class, Ttl, A) {
+    (Name::root_ref(), Class::IN, Ttl::from_secs(0), A::from_octets(a, b, c, d))
+}
+
+/// The same for every octets type, builder route, additional-section layout
+/// and recipe.  Whatever the recipe, the message that results is the one
+/// `len` / `optlen` / `alay` describe; the recipes differ in the builder
+/// operations that come last:
+///  * plain:     only appends
+///  * rewind:    an authority record is pushed and the section rewound
+///  * filllimit: a push limit just above the message, then a record that
+///               does not fit (the push is rolled back: LimitExceeded)
+///  * fill64k:   a record that would take the message beyond 65535 octets
+///               (the stream target refuses, the push is rolled back)
+///  * optfail:   a second OPT whose closure fails (cut off again)
+pub fn build_answer_x<T: MkTgt>(
+    msg: &Message<Vec<u8>>,
+    k: u8,
+    spec: &AnsSpec,
+    wrong_id: bool,
+) -> Result<AdditionalBuilder<StreamTarget<T>>, ServiceError> {
+    let builder = T::builder(&spec.route);
     let mut ans = builder.start_answer(msg, Rcode::NOERROR)?;
     if wrong_id {
         ans.header_mut().set_id(0xdead);
     }
-    let qlen = msg.as_slice().len().min(
-        // question section length = first-answer offset - 12; recompute from
-        // the builder instead: what start_answer copied
-        usize::MAX,
-    );
-    let _ = qlen;
     let base = ans.as_slice().len(); // 12 + question
-    ans.push((Name::root_ref(), Class::IN, Ttl::from_secs(0), A::from_octets(10, 0, 0, k)))?;
-    let have = base + 15 + optlen;
-    if len > have {
-        let mut fill = len - have;
+    ans.push(a_rec(10, 0, 0, k))?;
+    let nadd = match spec.alay.as_str() {
+        "before" | "after" => 1,
+        "both" => 2,
+        _ => 0,
+    };
+    let have = base + 15 + spec.optlen + 15 * nadd;
+    if spec.len > have {
+        let mut fill = spec.len - have;
         // filler records: 11 octets of overhead each, at most 60000 of data
         while fill > 0 {
             if fill < 11 {
@@ -484,9 +594,17 @@ pub fn build_answer(
             fill -= 11 + n;
         }
     }
-    let mut add = ans.additional();
-    if optlen >= 11 {
-        let pad = optlen - 11;
+    let mut auth = ans.authority();
+    if spec.recipe == "rewind" {
+        auth.push(a_rec(10, 9, 9, 9))?;
+        auth.rewind();
+    }
+    let mut add = auth.additional();
+    if matches!(spec.alay.as_str(), "before" | "both") {
+        add.push(a_rec(10, 1, 1, 1))?;
+    }
+    if spec.optlen >= 11 {
+        let pad = spec.optlen - 11;
         add.opt(|o| {
             if pad >= 4 {
                 o.padding((pad - 4) as u16)?;
@@ -494,11 +612,55 @@ pub fn build_answer(
             Ok(())
         })?;
     }
+    if matches!(spec.alay.as_str(), "after" | "both") {
+        add.push(a_rec(10, 2, 2, 2))?;
+    }
+    match spec.recipe.as_str() {
+        "filllimit" => {
+            let l = add.as_slice().len();
+            add.set_push_limit(l + 50);
+            let rd = UnknownRecordData::from_octets(Rtype::from_int(65280), vec![0xBBu8; 100])
+                .map_err(|_| ServiceError::InternalError)?;
+            if add.push((Name::root_ref(), Class::IN, Ttl::from_secs(0), rd)).is_ok() {
+                return Err(ServiceError::InternalError);
+            }
+        }
+        "fill64k" => {
+            let rd = UnknownRecordData::from_octets(Rtype::from_int(65280), vec![0xCCu8; 65535])
+                .map_err(|_| ServiceError::InternalError)?;
+            if add.push((Name::root_ref(), Class::IN, Ttl::from_secs(0), rd)).is_ok() {
+                return Err(ServiceError::InternalError);
+            }
+        }
+        "optfail" => {
+            let r = add.opt(|o| {
+                o.padding(10)?;
+                Err(ShortBuf)
+            });
+            if r.is_ok() {
+                return Err(ServiceError::InternalError);
+            }
+        }
+        _ => {}
+    }
     Ok(add)
 }
 
-impl futures_util::stream::Stream for ScriptStream {
-    type Item = ServiceResult<Vec<u8>>;
+/// echo mode with variety: what the answer looks like follows from the id
+pub fn varied_spec(id: u16) -> AnsSpec {
+    AnsSpec {
+        len: 0,
+        optlen: if id & 1 == 1 { 11 } else { 0 },
+        recipe: ["plain", "filllimit", "optfail", "rewind", "fill64k", "plain", "plain", "plain"]
+            [((id >> 1) & 7) as usize]
+            .into(),
+        route: ["mk", "new", "from", "newtgt"][((id >> 4) & 3) as usize].into(),
+        alay: ["none", "before", "after", "both"][((id >> 6) & 3) as usize].into(),
+    }
+}
+
+impl<T: MkTgt> futures_util::stream::Stream for ScriptStream<T> {
+    type Item = ServiceResult<T>;
     fn poll_next(mut self: Pin<&mut Self>, cx: &mut Context<'_>) -> Poll<Option<Self::Item>> {
         let svc = self.svc.clone();
         let mut s = svc.0.lock().unwrap();
@@ -507,9 +669,10 @@ impl futures_util::stream::Stream for ScriptStream {
         match s.scripts.get_mut(&id) {
             None => {
                 if echo && !self.echoed {
+                    let spec = if s.echo_varied { varied_spec(id) } else { AnsSpec::default() };
                     drop(s);
                     self.echoed = true;
-                    let r = build_answer(&self.msg, 1, 0, 0, true).map(CallResult::new);
+                    let r = build_answer_x::<T>(&self.msg, 1, &spec, true).map(CallResult::new);
                     return Poll::Ready(Some(r));
                 }
                 Poll::Ready(None)
@@ -526,12 +689,32 @@ impl futures_util::stream::Stream for ScriptStream {
                 let item = sc.items.pop_front().unwrap();
                 match item {
                     Item::Fail => Poll::Ready(Some(Err(ServiceError::InternalError))),
+                    Item::FailWith(kind) => Poll::Ready(Some(Err(match kind {
+                        "formerr" => ServiceError::FormatError,
+                        "notimp" => ServiceError::NotImplemented,
+                        "refused" => ServiceError::Refused,
+                        _ => ServiceError::InternalError,
+                    }))),
+                    Item::RespX { spec, fb } => {
+                        sc.yielded += 1;
+                        let k = sc.yielded;
+                        drop(s);
+                        let r = build_answer_x::<T>(&self.msg, k, &spec, true).map(|b| {
+                            let cr = CallResult::new(b);
+                            match fb {
+                                Some(f) => cr.with_feedback(f),
+                                None => cr,
+                            }
+                        });
+                        Poll::Ready(Some(r))
+                    }
                     Item::Feedback(fb) => Poll::Ready(Some(Ok(CallResult::feedback_only(fb)))),
                     Item::Resp { len, optlen, fb } => {
                         sc.yielded += 1;
                         let k = sc.yielded;
                         drop(s);
-                        let r = build_answer(&self.msg, k, len, optlen, true).map(|b| {
+                        let spec = AnsSpec { len, optlen, ..Default::default() };
+                        let r = build_answer_x::<T>(&self.msg, k, &spec, true).map(|b| {
                             let cr = CallResult::new(b);
                             match fb {
                                 Some(f) => cr.with_feedback(f),
@@ -544,23 +727,42 @@ impl futures_util::stream::Stream for ScriptStream {
             }
         }
     }
+
+    /// exact: what a well-behaved service stream announces
+    fn size_hint(&self) -> (usize, Option<usize>) {
+        let s = self.svc.0.lock().unwrap();
+        let n = match s.scripts.get(&self.id) {
+            Some(sc) => sc.items.len(),
+            None => usize::from(s.echo && !self.echoed),
+        };
+        (n, Some(n))
+    }
 }
 
-impl Service<Vec<u8>, ()> for ScriptSvc {
-    type Target = Vec<u8>;
-    type Stream = ScriptStream;
-    type Future = Ready<ScriptStream>;
+/// What every service of the harness does with an arriving request: note
+/// what the middleware told it (reserved octets, size hint, transport) and
+/// convert the request into a client request the way a forwarding service
+/// would (`TryFrom<Request> for RequestMessage`).
+pub fn note_arrival(state: &Mutex<SvcState>, request: &Request<Vec<u8>, ()>) {
+    let id = request.message().header().id();
+    let hint = match request.transport_ctx() {
+        TransportSpecificContext::Udp(c) => c.max_response_size_hint(),
+        TransportSpecificContext::NonUdp(_) => None,
+    };
+    let fwd = domain::net::client::request::RequestMessage::<Vec<u8>>::try_from(request.clone());
+    let mut s = state.lock().unwrap();
+    s.arrived.push((id, request.num_reserved_bytes(), hint));
+    s.fwd.push(fwd.is_ok());
+    s.non_udp.push(request.transport_ctx().is_non_udp());
+}
+
+impl<T: MkTgt> Service<Vec<u8>, ()> for ScriptSvc<T> {
+    type Target = T;
+    type Stream = ScriptStream<T>;
+    type Future = Ready<ScriptStream<T>>;
     fn call(&self, request: Request<Vec<u8>, ()>) -> Self::Future {
         let id = request.message().header().id();
-        let hint = match request.transport_ctx() {
-            TransportSpecificContext::Udp(c) => c.max_response_size_hint(),
-            TransportSpecificContext::NonUdp(_) => None,
-        };
-        self.0
-            .lock()
-            .unwrap()
-            .arrived
-            .push((id, request.num_reserved_bytes(), hint));
+        note_arrival(&self.0, &request);
         ready(ScriptStream {
             svc: self.clone(),
             id,
@@ -570,17 +772,98 @@ impl Service<Vec<u8>, ()> for ScriptSvc {
     }
 }
 
-pub type Stack = MandatoryMiddlewareSvc<
+pub type StackOver<S> = MandatoryMiddlewareSvc<
     Vec<u8>,
-    EdnsMiddlewareSvc<Vec<u8>, CookiesMiddlewareSvc<Vec<u8>, ScriptSvc, ()>, ()>,
+    EdnsMiddlewareSvc<Vec<u8>, CookiesMiddlewareSvc<Vec<u8>, S, ()>, ()>,
     (),
 >;
+pub type Stack<T = Vec<u8>> = StackOver<ScriptSvc<T>>;
+
+pub const SECRET: [u8; 16] = [7u8; 16];
 
 /// The stack the property names: Mandatory(Edns(Cookies(svc))).
-pub fn stack(svc: ScriptSvc) -> Stack {
-    MandatoryMiddlewareSvc::new(EdnsMiddlewareSvc::new(CookiesMiddlewareSvc::new(
-        svc, [7u8; 16],
-    )))
+pub fn stack<T: MkTgt>(svc: ScriptSvc<T>) -> Stack<T> {
+    MandatoryMiddlewareSvc::new(EdnsMiddlewareSvc::new(CookiesMiddlewareSvc::new(svc, SECRET)))
+}
+
+/// How the stack is put together (every public constructor / switch of the
+/// three middleware services).
+#[derive(Clone, Debug)]
+pub struct StackCfg {
+    /// MandatoryMiddlewareSvc::new (strict) or ::relaxed
+    pub strict: bool,
+    /// EdnsMiddlewareSvc::enable
+    pub edns_on: bool,
+    /// CookiesMiddlewareSvc::enable
+    pub ck_on: bool,
+    /// CookiesMiddlewareSvc::with_denied_ips
+    pub denied: Vec<IpAddr>,
+    /// CookiesMiddlewareSvc::with_random_secret instead of ::new(SECRET)
+    pub random_secret: bool,
+    /// call enable(true) explicitly (same as not calling it)
+    pub explicit_on: bool,
+}
+
+impl Default for StackCfg {
+    fn default() -> Self {
+        StackCfg {
+            strict: true,
+            edns_on: true,
+            ck_on: true,
+            denied: vec![],
+            random_secret: false,
+            explicit_on: false,
+        }
+    }
+}
+
+impl StackCfg {
+    pub fn from_json(v: &Value, client: IpAddr) -> Self {
+        let d = StackCfg::default();
+        StackCfg {
+            strict: v["strict"].as_bool().unwrap_or(d.strict),
+            edns_on: v["edns_on"].as_bool().unwrap_or(d.edns_on),
+            ck_on: v["ck_on"].as_bool().unwrap_or(d.ck_on),
+            denied: if v["denied"].as_bool().unwrap_or(false) { vec![client] } else { vec![] },
+            random_secret: v["secret"].as_str() == Some("random"),
+            explicit_on: v["explicit_on"].as_bool().unwrap_or(false),
+        }
+    }
+}
+
+pub fn stack_over<S>(svc: S, c: &StackCfg) -> StackOver<S>
+where
+    S: Service<Vec<u8>, ()>,
+    S::Future: Unpin,
+{
+    let mut ck = if c.random_secret {
+        CookiesMiddlewareSvc::with_random_secret(svc)
+    } else {
+        CookiesMiddlewareSvc::new(svc, SECRET)
+    };
+    if !c.denied.is_empty() {
+        ck = ck.with_denied_ips(c.denied.clone());
+    }
+    if !c.ck_on || c.explicit_on {
+        ck = ck.enable(c.ck_on);
+    }
+    let mut ed = EdnsMiddlewareSvc::new(ck);
+    if !c.edns_on || c.explicit_on {
+        ed = ed.enable(c.edns_on);
+    }
+    if c.strict {
+        MandatoryMiddlewareSvc::new(ed)
+    } else {
+        MandatoryMiddlewareSvc::relaxed(ed)
+    }
+}
+
+/// A service made with `util::service_fn` (one answer per request, no
+/// control over completion): the same answers as the scripted service.
+pub type FnMeta = (AnsSpec, Arc<Mutex<SvcState>>);
+pub fn fn_handler(req: Request<Vec<u8>, ()>, meta: FnMeta) -> ServiceResult<Vec<u8>> {
+    note_arrival(&meta.1, &req);
+    build_answer_x::<Vec<u8>>(req.message(), 1, &meta.0, true).map(CallResult::new)
 }
 
 //------------ request construction ------------------------------------------
@@ -643,6 +926,121 @@ pub fn mk_query_opts(id: u16, qlen: usize, edns: Option<u16>, qr: bool, ropts: &
         .unwrap();
     }
     a.finish()
+}
+
+/// A request assembled octet by octet, so that every hostile shape can be
+/// said: number of questions, opcode, number of OPT records, EDNS version,
+/// raw options.
+#[derive(Clone, Debug)]
+pub struct RawReq {
+    pub id: u16,
+    pub qlen: usize,
+    pub qd: u16,
+    pub opcode: u8,
+    pub qr: bool,
+    /// OPT records: (udp size, version, options as (code, data))
+    pub opts: Vec<(u16, u8, Vec<(u16, Vec<u8>)>)>,
+}
+
+pub fn qname_of_len(qlen: usize) -> Vec<u8> {
+    let mut name = Vec::new();
+    let mut left = qlen.saturating_sub(5);
+    while left > 0 {
+        let n = if left >= 64 { 63 } else { left - 1 };
+        if n == 0 {
+            break;
+        }
+        name.push(n as u8);
+        name.extend(std::iter::repeat(b'a').take(n));
+        left -= 1 + n;
+    }
+    name.push(0);
+    name
+}
+
+pub fn mk_query_raw(r: &RawReq) -> Vec<u8> {
+    let mut b = Vec::new();
+    b.extend_from_slice(&r.id.to_be_bytes());
+    b.push((if r.qr { 0x80 } else { 0 }) | ((r.opcode & 15) << 3) | 1); // RD
+    b.push(0);
+    b.extend_from_slice(&r.qd.to_be_bytes());
+    b.extend_from_slice(&[0, 0, 0, 0]);
+    b.extend_from_slice(&(r.opts.len() as u16).to_be_bytes());
+    let name = qname_of_len(r.qlen);
+    for i in 0..r.qd {
+        b.extend_from_slice(&name);
+        // A, then AAAA ... for further questions
+        b.extend_from_slice(&[0, if i == 0 { 1 } else { 28 }, 0, 1]);
+    }
+    for (size, version, options) in &r.opts {
+        b.push(0);
+        b.extend_from_slice(&41u16.to_be_bytes());
+        b.extend_from_slice(&size.to_be_bytes());
+        b.extend_from_slice(&[0, *version, 0, 0]);
+        let rdlen: usize = options.iter().map(|o| 4 + o.1.len()).sum();
+        b.extend_from_slice(&(rdlen as u16).to_be_bytes());
+        for (code, data) in options {
+            b.extend_from_slice(&code.to_be_bytes());
+            b.extend_from_slice(&(data.len() as u16).to_be_bytes());
+            b.extend_from_slice(data);
+        }
+    }
+    b
+}
+
+pub const CLIENT_COOKIE: [u8; 8] = [1, 2, 3, 4, 5, 6, 7, 8];
+
+/// The data of a COOKIE option as the case describes it:
+/// {"form": none | client | len (with "n") | std | nonstd,
+///  "hash": "ok" | "bad", "d": [hi, lo]}  -- `d` is the distance of the
+/// timestamp from the server's clock in 2 x 16-bit limbs (Server.tla).
+pub fn cookie_data(ck: &Value, ip: IpAddr, secret: &[u8; 16]) -> Option<Vec<u8>> {
+    use domain::base::opt::cookie::{ClientCookie, ServerCookie, StandardServerCookie};
+    use domain::base::Serial;
+    match ck["form"].as_str().unwrap_or("none") {
+        "none" => None,
+        "client" => Some(CLIENT_COOKIE.to_vec()),
+        "len" => {
+            let n = ck["n"].as_u64().unwrap_or(0) as usize;
+            Some((0..n).map(|i| (i as u8).wrapping_mul(7).wrapping_add(1)).collect())
+        }
+        "nonstd" => {
+            let mut v = CLIENT_COOKIE.to_vec();
+            v.extend_from_slice(&[0x42; 24]);
+            Some(v)
+        }
+        _ => {
+            let hi = ck["d"][0].as_u64().unwrap_or(0) as u32;
+            let lo = ck["d"][1].as_u64().unwrap_or(0) as u32;
+            let ts = Serial::now().into_int().wrapping_add((hi << 16) | lo);
+            let sc = if ck["hash"].as_str() == Some("ok") {
+                StandardServerCookie::calculate(
+                    ClientCookie::from_octets(CLIENT_COOKIE),
+                    Serial::from(ts),
+                    ip,
+                    secret,
+                )
+            } else {
+                StandardServerCookie::new(1, [0; 3], Serial::from(ts), [0x55; 8])
+            };
+            let mut v = CLIENT_COOKIE.to_vec();
+            v.extend_from_slice(ServerCookie::from(sc).as_ref());
+            Some(v)
+        }
+    }
+}
+
+/// The COOKIE option data of a response, if it has one.
+pub fn response_cookie(bytes: &[u8]) -> Option<Vec<u8>> {
+    use domain::base::opt::Cookie;
+    let msg = Message::from_octets(bytes).ok()?;
+    let opt = msg.opt()?;
+    let ck = opt.opt().iter::<Cookie>().next()?.ok()?;
+    let mut v = ck.client().into_octets().to_vec();
+    if let Some(s) = ck.server() {
+        v.extend_from_slice(s.as_ref());
+    }
+    Some(v)
 }
 
 pub fn frame(body: &[u8]) -> Vec<u8> {
@@ -719,7 +1117,18 @@ pub fn describe(bytes: &[u8]) -> Value {
         && counts[0] == c.ancount()
         && counts[1] == c.nscount()
         && counts[2] == c.arcount();
+    let (xrcode, ck, nopt_ck) = match msg.opt() {
+        Some(o) => {
+            let n = o.opt().iter::<domain::base::opt::Cookie>().count();
+            (o.rcode(h).to_int(), n > 0, n)
+        }
+        None => (h.rcode().to_int() as u16, false, 0),
+    };
     json!({
+        "xrcode": xrcode,
+        "ck": ck,
+        "nck": nopt_ck,
+        "opcode": h.opcode().to_int(),
         "parses": ok,
         "id": h.id(),
         "qr": h.qr(),
